@@ -318,6 +318,13 @@ enum GenOp {
     DivS(C64),
     AddS(C64),
     SubS(C64),
+    /// the consuming (by-value) operator forms, result bound to p again: p = -p, p = p + s, p = p * s,
+    /// p = p + q, p = p - &q (round 11: state that an operator must carry over - or must drop - with the value)
+    NegV,
+    AddSV(C64),
+    MulSV(C64),
+    AddPolyV(Vec<C64>),
+    SubPolyRefV(Vec<C64>),
 }
 
 #[derive(Clone)]
@@ -354,6 +361,11 @@ fn opname(op: &GenOp) -> &'static str {
         GenOp::DivS(_) => "div_assign_scalar",
         GenOp::AddS(_) => "add_assign_scalar",
         GenOp::SubS(_) => "sub_assign_scalar",
+        GenOp::NegV => "neg_by_value",
+        GenOp::AddSV(_) => "add_scalar_by_value",
+        GenOp::MulSV(_) => "mul_scalar_by_value",
+        GenOp::AddPolyV(_) => "add_polynomial_by_value",
+        GenOp::SubPolyRefV(_) => "sub_borrowed_polynomial_by_value",
     }
 }
 
@@ -514,6 +526,54 @@ fn run_hist<N: Sc>(rep: &mut Report, h: &Hist) {
                     guard(|| p += sn)
                 }
             }
+            GenOp::NegV => {
+                desc = "p = -p".to_string();
+                for c in refc.iter_mut() {
+                    *c = -*c;
+                }
+                guard(|| {
+                    let old = std::mem::replace(&mut p, Polynomial::new());
+                    p = -old;
+                })
+            }
+            GenOp::AddSV(sv) => {
+                desc = format!("p = p + {}", cfmt(*sv));
+                unit = vec![0.0; refc.len()];
+                unit[0] = EPS * (refc[0].norm() + sv.norm());
+                refc[0] += *sv;
+                let sn = N::from_c(*sv);
+                guard(|| {
+                    let old = std::mem::replace(&mut p, Polynomial::new());
+                    p = old + sn;
+                })
+            }
+            GenOp::MulSV(sv) => {
+                desc = format!("p = p * {}", cfmt(*sv));
+                unit = refc.iter().map(|c| EPS * c.norm() * sv.norm()).collect();
+                for c in refc.iter_mut() {
+                    *c = cmul_exact(*c, *sv);
+                }
+                let sn = N::from_c(*sv);
+                guard(|| {
+                    let old = std::mem::replace(&mut p, Polynomial::new());
+                    p = old * sn;
+                })
+            }
+            GenOp::AddPolyV(q) | GenOp::SubPolyRefV(q) => {
+                let sub = matches!(op, GenOp::SubPolyRefV(..));
+                desc = format!("p = p {} q, q = {:?} (ascending)", if sub { "- &" } else { "+" }, q.iter().map(|c| cfmt(*c)).collect::<Vec<_>>());
+                grow(&mut refc, q.len());
+                unit = vec![0.0; refc.len()];
+                for (i, qi) in q.iter().enumerate() {
+                    unit[i] = EPS * (refc[i].norm() + qi.norm());
+                    refc[i] = if sub { refc[i] - *qi } else { refc[i] + *qi };
+                }
+                let qp: Polynomial<N> = build(q, None, false);
+                guard(|| {
+                    let old = std::mem::replace(&mut p, Polynomial::new());
+                    p = if sub { old - &qp } else { old + qp };
+                })
+            }
         };
         rep.eval();
         rep.count(&format!("history_ops/{}", name), 1);
@@ -594,6 +654,39 @@ fn run_hist<N: Sc>(rep: &mut Report, h: &Hist) {
                 refc[i] = g.to_c();
             }
         }
+        // ---- derived quantities after EVERY step (round 11): the definite integral over a fixed interval must be
+        // the one of the coefficients just read back - also when the previous call of integrate() was made on the
+        // polynomial as it was before this operation (anything remembered between calls must follow the edits)
+        {
+            let (a, b) = (-1.25f64, 0.5f64);
+            let mut r = zero();
+            let mut mag = 0.0;
+            for (k, ck) in refc.iter().enumerate() {
+                let kk = (k + 1) as f64;
+                r += *ck * ((b.powi(k as i32 + 1) - a.powi(k as i32 + 1)) / kk);
+                mag += ck.norm() * (b.abs().powi(k as i32 + 1) + a.abs().powi(k as i32 + 1)) / kk;
+            }
+            let unit_i = (refc.len() + 2) as f64 * EPS * mag;
+            rep.eval();
+            match guard(|| p.integrate(N::from_c(C64::new(a, 0.0)), N::from_c(C64::new(b, 0.0)))) {
+                Guarded::Ok(v) => {
+                    let err = (v.to_c() - r).norm();
+                    rep.count("history_integrals_after_a_step", 1);
+                    if unit_i > 0.0 {
+                        rep.max("history_integrate_err_over_(n+2)eps.sum|c_k|(|a|^(k+1)+|b|^(k+1))/(k+1)", err / unit_i);
+                    }
+                    if !(err <= 2.0 * K_INT * unit_i) {
+                        rep.violation("history/integrate-after-step", base(&log), format!("after step {} ({}): integrate(-1.25, 0.5) = {} but the coefficients read back integrate to {} ({}): difference {:e} > {:e}", step, desc, cfmt(v.to_c()), cfmt(r), fld, err, 2.0 * K_INT * unit_i));
+                        return;
+                    }
+                }
+                Guarded::Panic(m, l) => {
+                    rep.violation("history/integrate-panic", base(&log), format!("integrate after step {} ({}) panicked ({}): '{}' at {}", step, desc, fld, m, l));
+                    return;
+                }
+                Guarded::Budget => return,
+            }
+        }
     }
     rep.count("histories", 1);
     rep.count("history_purges_at_degree", purges_at);
@@ -648,7 +741,24 @@ fn gen_value(rng: &mut Rng, complex: bool, tol: f64) -> C64 {
 }
 
 fn gen_op(rng: &mut Rng, complex: bool, tol: f64) -> GenOp {
-    match rng.below(20) {
+    match rng.below(24) {
+        20 => GenOp::NegV,
+        21 => {
+            if rng.bool() {
+                GenOp::AddSV(rand_scalar(rng, complex, -3.0, 3.0))
+            } else {
+                GenOp::MulSV(rand_scalar(rng, complex, -1.0, 1.0))
+            }
+        }
+        22 | 23 => {
+            let n = 1 + rng.below(10);
+            let q: Vec<C64> = (0..n).map(|_| gen_value(rng, complex, tol)).collect();
+            if rng.bool() {
+                GenOp::AddPolyV(q)
+            } else {
+                GenOp::SubPolyRefV(q)
+            }
+        }
         0..=3 => GenOp::Set(rng.below(16) as u32, gen_value(rng, complex, tol)),
         4 | 5 => GenOp::SetRel(rng.below(4) as u32, gen_value(rng, complex, tol)),
         6 | 7 => GenOp::PurgeBelow(rng.f()),
@@ -782,7 +892,8 @@ pub fn thresholds(ctx: &Ctx, rep: &Report) -> Vec<Threshold> {
     t.push(Threshold { what: "from_slice / get_coefficients round trips".into(), required: q(4_000.0, 150_000.0), observed: rep.counter("roundtrips") as f64 });
     t.push(Threshold { what: "purge_coefficient calls at the degree inside completed histories".into(), required: q(4_000.0, 150_000.0), observed: rep.counter("history_purges_at_degree") as f64 });
     t.push(Threshold { what: "purge_coefficient calls beyond the degree inside completed histories".into(), required: q(4_000.0, 150_000.0), observed: rep.counter("history_purges_beyond_degree") as f64 });
-    for op in ["set_coefficient", "purge_coefficient", "purge_leading", "add_assign_polynomial", "sub_assign_polynomial", "mul_assign_scalar", "div_assign_scalar", "add_assign_scalar", "sub_assign_scalar"] {
+    t.push(Threshold { what: "definite integrals taken after a history step (the previous one taken before it)".into(), required: q(100_000.0, 1_000_000.0), observed: rep.counter("history_integrals_after_a_step") as f64 });
+    for op in ["set_coefficient", "purge_coefficient", "purge_leading", "add_assign_polynomial", "sub_assign_polynomial", "mul_assign_scalar", "div_assign_scalar", "add_assign_scalar", "sub_assign_scalar", "neg_by_value", "add_polynomial_by_value", "sub_borrowed_polynomial_by_value"] {
         t.push(Threshold { what: format!("history operations of kind {}", op), required: q(1_500.0, 60_000.0), observed: rep.counter(&format!("history_ops/{}", op)) as f64 });
     }
     t.push(Threshold { what: "leading terms within tolerance seen to be dropped by purge_leading".into(), required: q(200.0, 8_000.0), observed: rep.counter("purge_leading/terms_dropped") as f64 });
